@@ -79,6 +79,19 @@ var c14Sleep = []time.Duration{0, time.Millisecond, 5 * time.Millisecond, 30 * t
 
 func genC14(rng *rand.Rand, tier string) *C14Plan {
 	p := &C14Plan{Backend: []string{"hashmap", "hashmap", "fstree", "bbolt"}[rng.IntN(4)], Shadow: rng.IntN(2) == 0, RegLate: rng.IntN(4) == 0}
+	if rng.IntN(25) == 0 {
+		// hooks around the life of one record: stored, read, deleted, read (the deleted record may still be kept in
+		// storage), stored again, read
+		k := rng.IntN(len(keyPool))
+		p.RegLate = false
+		p.Hooks = []HookSpec{{Prefix: 0, PreGet: rng.IntN(2) == 0, PostGet: true, PrePut: rng.IntN(2) == 0, CancelAfter: -1, SameQueryAs: -1, ObjectOf: -1}}
+		var ops []WOp
+		for _, kind := range []string{"put", "get", "delete", "get", "get", "put", "get"} {
+			ops = append(ops, WOp{Kind: kind, Key: k, Seed: rng.IntN(1 << 20)})
+		}
+		p.Writers = [][]WOp{ops}
+		return p
+	}
 	if rng.IntN(60) == 0 {
 		p.Backend, p.RegLate, p.Fill = "hashmap", false, true
 		p.Subs = []SubSpec{{Prefix: 0, Local: true, Internal: true, CancelAfter: -1, SameQueryAs: -1}}
